@@ -8,6 +8,7 @@ from vp.ref import conv as refconv
 
 PROPERTY = "C03"
 RULE = (
+    "(extended) kernels also include small whole numbers with exact -1.0 / 0.0 / repeated entries (sentinel values, exact cancellations). "
     "Hypothesis: masks (holes, several components, bridges; inner part up to 7x7) padded with a masked ring of the "
     "kernel half-widths, odd kernels 1..7 per axis independently (non-negative / signed / sparse / normalised, all "
     "entries distinct so flips and transposes are visible), real images and blurring images, real signed sparse "
